@@ -114,6 +114,29 @@ Qed.
 Lemma noop_ok c th : wf c -> pc_buf (tpc th) -> sec_ok c th (noop c th).
 Proof. intros. unfold sec_ok, noop; cbn. repeat split; auto; apply H. Qed.
 
+Lemma send_sec_ok c th rest v : wf c -> sec_ok c th (send_sec c th rest v).
+Proof.
+  intros W. pose proof (cap_nz c W) as Hz. pose proof W as (Hc & Hl & Hg & Hn).
+  unfold send_sec. rewrite Hz.
+  destruct (closed c) eqn:Ec.
+  - rewrite andb_false_r. repeat split; auto. cbn. now rewrite Ec.
+  - rewrite andb_true_r. destruct (Nat.eqb_spec (len c) (cap c)) as [E|E].
+    { repeat split; auto. }
+    pose proof (wf_put c v W ltac:(lia)) as W'.
+    repeat split; auto; try apply W'. apply spec_send_ok; auto; lia.
+Qed.
+
+Lemma recv_sec_ok c th rest t : wf c -> sec_ok c th (recv_sec c th rest t).
+Proof.
+  intros W. pose proof (cap_nz c W) as Hz. pose proof W as (Hc & Hl & Hg & Hn).
+  unfold recv_sec. rewrite Hz.
+  destruct (Nat.eqb_spec (len c) 0) as [E|E].
+  { destruct (closed c) eqn:Ec; repeat split; auto.
+    cbn. rewrite contents_nil by auto. now rewrite Ec. }
+  pose proof (wf_take c W ltac:(lia)) as W'.
+  repeat split; auto; try apply W'. apply spec_recv_ok; auto; lia.
+Qed.
+
 Lemma section_ok c th t o rest :
   wf c -> pc_buf (tpc th) -> sec_ok c th (section c th t o rest).
 Proof.
@@ -122,24 +145,15 @@ Proof.
   destruct (tpc th) as [| | |r| |] eqn:Epc; cbn in P; try contradiction.
   - (* PStart *)
     destruct o as [v| |v| |].
-    + unfold send_sec. rewrite Hz.
+    + now apply send_sec_ok.
+    + now apply recv_sec_ok.
+    + unfold trysend_sec.
+      destruct (closed c) eqn:Ec.
+      { repeat split; auto. cbn. now rewrite Ec. }
+      rewrite Hz.
       destruct (Nat.eqb_spec (len c) (cap c)) as [E|E].
-      { repeat split; auto. }
-      destruct (closed c) eqn:Ec.
-      { repeat split; auto. cbn. now rewrite Ec. }
-      pose proof (wf_put c v W ltac:(lia)) as W'.
-      repeat split; auto; try apply W'. apply spec_send_ok; auto; lia.
-    + unfold recv_sec. rewrite Hz.
-      destruct (Nat.eqb_spec (len c) 0) as [E|E].
-      { destruct (closed c) eqn:Ec; repeat split; auto.
-        cbn. rewrite contents_nil by auto. now rewrite Ec. }
-      pose proof (wf_take c W ltac:(lia)) as W'.
-      repeat split; auto; try apply W'. apply spec_recv_ok; auto; lia.
-    + unfold trysend_sec. rewrite Hz.
-      destruct (Nat.eqb_spec (len c) (cap c)) as [E|E]; cbn [orb].
-      { repeat split; auto. cbn. rewrite contents_length, E, Nat.eqb_refl. now rewrite orb_true_r. }
-      destruct (closed c) eqn:Ec.
-      { repeat split; auto. cbn. now rewrite Ec. }
+      { repeat split; auto. cbn [e_ev e_ch e_th e_deliver spec_step absc sq sclosed].
+        rewrite Ec, contents_length, E, Nat.eqb_refl. reflexivity. }
       pose proof (wf_put c v W ltac:(lia)) as W'.
       repeat split; auto; try apply W'. apply spec_send_ok; auto; lia.
     + unfold tryrecv_sec. rewrite Hz.
@@ -149,24 +163,16 @@ Proof.
           rewrite ?contents_nil by auto; rewrite ?Ec; auto. }
       pose proof (wf_take c W ltac:(lia)) as W'.
       repeat split; auto; try apply W'. apply spec_recv_ok; auto; lia.
-    + repeat split; auto.
+    + destruct (closed c) eqn:Ec.
+      { repeat split; auto. cbn. now rewrite Ec. }
+      repeat split; auto. cbn [e_ev e_ch e_th e_deliver spec_step absc sq sclosed].
+      rewrite Ec. unfold set_closed; cbn. reflexivity.
   - (* PSendW *)
     destruct o as [v| |v| |]; try (apply noop_ok; auto; rewrite Epc; exact I).
-    rewrite Hz. unfold send_sec. rewrite Hz.
-    destruct (Nat.eqb_spec (len c) (cap c)) as [E|E].
-    { repeat split; auto. }
-    destruct (closed c) eqn:Ec.
-    { repeat split; auto. cbn. now rewrite Ec. }
-    pose proof (wf_put c v W ltac:(lia)) as W'.
-    repeat split; auto; try apply W'. apply spec_send_ok; auto; lia.
+    rewrite Hz. now apply send_sec_ok.
   - (* PRecvW *)
     destruct o as [v| |v| |]; try (apply noop_ok; auto; rewrite Epc; exact I).
-    unfold recv_sec. rewrite Hz.
-    destruct (Nat.eqb_spec (len c) 0) as [E|E].
-    { destruct (closed c) eqn:Ec; repeat split; auto.
-      cbn. rewrite contents_nil by auto. now rewrite Ec. }
-    pose proof (wf_take c W ltac:(lia)) as W'.
-    repeat split; auto; try apply W'. apply spec_recv_ok; auto; lia.
+    now apply recv_sec_ok.
   - (* PBcast *)
     destruct r as [r|]; [|contradiction]. repeat split; auto.
 Qed.
@@ -256,9 +262,10 @@ Proof.
       injection E as <-. cbn in IH. subst x. cbn. f_equal. exact IH.
     + destruct (sq a) eqn:Eq; [|discriminate]. destruct (sclosed a); [|discriminate]. injection E as <-.
       cbn in *. now rewrite Eq in IH.
-    + injection E as <-. exact IH.
+    + destruct (sclosed a); [discriminate|]. injection E as <-. exact IH.
     + destruct (sclosed a); [|discriminate]. injection E as <-. exact IH.
-    + destruct (sclosed a || (length (sq a) =? n)); [|discriminate]. injection E as <-. exact IH.
+    + destruct (sclosed a); [|discriminate]. injection E as <-. exact IH.
+    + destruct (negb (sclosed a) && (length (sq a) =? n)); [|discriminate]. injection E as <-. exact IH.
     + destruct (sq a) eqn:Eq; [|discriminate]. destruct (sclosed a); [discriminate|]. injection E as <-.
       cbn in *. now rewrite Eq in IH.
 Qed.
@@ -284,9 +291,10 @@ Proof.
     + destruct (sq a) as [|x q] eqn:Eq; [discriminate|]. destruct (N.eqb x v); [|discriminate].
       injection E as <-. cbn in *. lia.
     + assert (a1 = a) as -> by (destruct (sq a); try discriminate; destruct (sclosed a); try discriminate; congruence). auto.
-    + injection E as <-. auto.
+    + destruct (sclosed a); [discriminate|]. injection E as <-. auto.
     + assert (a1 = a) as -> by (destruct (sclosed a); try discriminate; congruence). auto.
-    + assert (a1 = a) as -> by (destruct (sclosed a || (length (sq a) =? n)); try discriminate; congruence). auto.
+    + assert (a1 = a) as -> by (destruct (sclosed a); try discriminate; congruence). auto.
+    + assert (a1 = a) as -> by (destruct (negb (sclosed a) && (length (sq a) =? n)); try discriminate; congruence). auto.
     + assert (a1 = a) as -> by (destruct (sq a); try discriminate; destruct (sclosed a); try discriminate; congruence). auto.
 Qed.
 
@@ -301,7 +309,6 @@ Proof.
     { destruct e; unfold spec_step in E; rewrite ?Hc in E; cbn [negb andb orb] in E; try discriminate.
       - destruct (sq a) as [|x q]; [discriminate|]. destruct (N.eqb x v); [|discriminate]. injection E as <-. auto.
       - destruct (sq a); [|discriminate]. injection E as <-. auto.
-      - injection E as <-. auto.
       - injection E as <-. auto.
       - injection E as <-. auto.
       - destruct (sq a); discriminate. }
@@ -378,7 +385,7 @@ Qed.
 Definition cls (c : chan) (th : thread) (rest : list op) (e : eff) : Prop :=
   (exists r, tpc th = PBcast (Some r) /\ e_ch e = c /\ e_bcast e = true /\ e_th e = fin th rest r) \/
   (e_bcast e = false /\ (forall r, tpc th <> PBcast r) /\
-   ((e_ch e = c /\ ((e_th e = park th PSendW /\ len c = cap c) \/
+   ((e_ch e = c /\ ((e_th e = park th PSendW /\ len c = cap c /\ closed c = false) \/
                     (e_th e = park th PRecvW /\ len c = 0 /\ closed c = false))) \/
     (exists r th0, prog th0 = prog th /\ e_th e = goto th0 (PBcast (Some r))) \/
     (e_ch e = c /\ exists r, e_th e = fin th rest r) \/
@@ -401,19 +408,19 @@ Proof.
     + destruct o; cbn; unfold send_sec, recv_sec, trysend_sec, tryrecv_sec; rewrite ?Hz;
         repeat match goal with |- context [if ?b then _ else _] => destruct b end; reflexivity.
     + destruct o as [v| |v| |]; unfold send_sec, recv_sec, trysend_sec, tryrecv_sec; rewrite ?Hz.
-      * destruct (Nat.eqb_spec (len c) (cap c)); [left; cbn; auto|].
-        destruct (closed c); cls_auto.
+      * destruct (closed c) eqn:Ec; [rewrite andb_false_r; cls_auto|rewrite andb_true_r].
+        destruct (Nat.eqb_spec (len c) (cap c)); [left; cbn; auto 6|cls_auto].
       * destruct (Nat.eqb_spec (len c) 0); [|cls_auto].
         destruct (closed c) eqn:Ec; cls_auto.
-      * destruct ((len c =? cap c) || closed c); cls_auto.
+      * destruct (closed c); [cls_auto|]. destruct (len c =? cap c); cls_auto.
       * destruct (len c =? 0); cls_auto.
-      * cls_auto.
+      * destruct (closed c); cls_auto.
   - right. split; [|split; [intros ?; rewrite ?Epc; discriminate|]].
     + destruct o; cbn; unfold send_sec; rewrite ?Hz;
         repeat match goal with |- context [if ?b then _ else _] => destruct b end; reflexivity.
     + destruct o as [v| |v| |]; try cls_auto. rewrite Hz. unfold send_sec; rewrite ?Hz.
-      destruct (Nat.eqb_spec (len c) (cap c)); [left; cbn; auto|].
-      destruct (closed c); cls_auto.
+      destruct (closed c) eqn:Ec; [rewrite andb_false_r; cls_auto|rewrite andb_true_r].
+      destruct (Nat.eqb_spec (len c) (cap c)); [left; cbn; auto 6|cls_auto].
   - right. split; [|split; [intros ?; rewrite ?Epc; discriminate|]].
     + destruct o; cbn; unfold recv_sec; rewrite ?Hz;
         repeat match goal with |- context [if ?b then _ else _] => destruct b end; reflexivity.
@@ -428,7 +435,7 @@ Qed.
 (* ---------- no lost wake-up on a buffered channel ---------- *)
 Definition waiting_ok (c : chan) (th : thread) : Prop :=
   parked th = true ->
-  (tpc th = PSendW /\ len c = cap c) \/ (tpc th = PRecvW /\ len c = 0 /\ closed c = false).
+  (tpc th = PSendW /\ len c = cap c /\ closed c = false) \/ (tpc th = PRecvW /\ len c = 0 /\ closed c = false).
 
 Definition pending_bcast (l : list thread) : Prop :=
   exists i th r, nth_error l i = Some th /\ prog th <> [] /\ parked th = false /\ tpc th = PBcast r.
@@ -498,7 +505,7 @@ Lemma quiescent_blocked_legit n progs sc :
   (forall th, In th (ths s) -> enabled th = false) ->
   forall th, In th (ths s) -> prog th <> [] ->
     parked th = true /\
-    ((tpc th = PSendW /\ len (ch s) = n) \/
+    ((tpc th = PSendW /\ len (ch s) = n /\ closed (ch s) = false) \/
      (tpc th = PRecvW /\ len (ch s) = 0 /\ closed (ch s) = false)).
 Proof.
   intros Hn s Hq th Hin Hp.
@@ -727,7 +734,8 @@ Proof.
     + destruct (sq a) as [|x q]; [discriminate|]. destruct (N.eqb x v); [|discriminate]. now injection E as <-.
     + destruct (sq a); [|discriminate]. destruct (sclosed a) eqn:Ec; [|discriminate]. congruence.
     + destruct (sclosed a) eqn:Ec; [|discriminate]. congruence.
-    + destruct (sclosed a || (length (sq a) =? n)); [|discriminate]. congruence.
+    + destruct (sclosed a) eqn:Ec; [|discriminate]. congruence.
+    + destruct (negb (sclosed a) && (length (sq a) =? n)); [|discriminate]. congruence.
     + destruct (sq a); [|discriminate]. destruct (sclosed a) eqn:Ec; [discriminate|]. congruence.
 Qed.
 
@@ -764,6 +772,7 @@ Lemma run_after_close n progs sc l1 l2 : 0 < n ->
 Proof.
   intros H E. pose proof (run_refines n progs sc H) as R. rewrite E in R.
   apply spec_run_app in R as (a1 & R1 & R2). cbn in R2.
+  destruct (sclosed a1); [discriminate|].
   eapply spec_closed_stays in R2; [tauto|reflexivity].
 Qed.
 
@@ -777,12 +786,6 @@ Definition w_recv_blocked_after_delivery : nat * list (list op) * schedule :=
   (0%nat, [[ORecv]; [ORecv]; [OSend 7]], [0;0;0;1;2;2;1;0;1;1;0]%nat).
 Definition w_recv_delivered_reported_closed : nat * list (list op) * schedule :=
   (0%nat, [[ORecv]; [OSend 7; OClose]], [0;0;0;1;1;1;0;1]%nat).
-Definition w_send_full_then_close : nat * list (list op) * schedule :=
-  (1%nat, [[OSend 5; OSend 6]; [OClose]], [0;0;0;1;1;0]%nat).
-Definition w_send_closed_no_panic : nat * list (list op) * schedule :=
-  (1%nat, [[OClose; OSend 5]], [0;0;0]%nat).
-Definition w_close_closed_no_panic : nat * list (list op) * schedule :=
-  (1%nat, [[OClose; OClose]], [0;0;0;0]%nat).
 Definition w_tryrecv_blocks : nat * list (list op) * schedule :=
   (0%nat, [[OSend 7; ORecv]; [OTryRecv]], [0;1;1;0;0;0;0;1;0]%nat).
 
@@ -818,25 +821,46 @@ Proof.
   - eexists; repeat split.
 Qed.
 
-Lemma f4_send_full_close :
-  let s := final w_send_full_then_close in
-  quiescent s /\ closed (ch s) = true /\
-  (exists th, nth_error (ths s) 0 = Some th /\ prog th = [OSend 6%N] /\ parked th = true /\ tpc th = PSendW).
+(* ---------- the repaired defects (F5, and the sender parked on a full buffer): one-step facts, any state ---------- *)
+Definition finishes_with (s : state) (t : nat) (rest : list op) (r : res) : Prop :=
+  exists s' th', step s t = Some s' /\ nth_error (ths s') t = Some th' /\
+                 prog th' = rest /\ out th' = (match nth_error (ths s) t with Some th => out th | None => [] end) ++ [r].
+
+(* a send (blocking: at its opening Lock or woken from its Wait; or non-blocking) that
+   finds the channel closed panics; any capacity *)
+Lemma send_closed_panics s t th v rest :
+  nth_error (ths s) t = Some th -> parked th = false -> closed (ch s) = true ->
+  (prog th = OSend v :: rest /\ (tpc th = PStart \/ tpc th = PSendW)) \/
+  (prog th = OTrySend v :: rest /\ tpc th = PStart) ->
+  finishes_with s t rest RPanic.
 Proof.
-  vm_compute. repeat split.
-  - intros th [<-|[<-|[]]]; reflexivity.
-  - eexists; repeat split.
+  intros Et Epk Ec H. unfold finishes_with. rewrite Et.
+  assert (Hfin : forall e, e_th e = fin th rest RPanic ->
+            exists th', nth_error (ths (apply_eff s t e)) t = Some th' /\ prog th' = rest /\ out th' = out th ++ [RPanic]).
+  { intros e He. eexists. split; [eapply frame_self; eauto|]. rewrite He. destruct (e_bcast e); cbn; auto. }
+  assert (Hsend : forall c, closed c = true -> e_th (send_sec c th rest v) = fin th rest RPanic).
+  { intros c Hc. unfold send_sec. rewrite Hc. cbn [negb]. rewrite !andb_false_r. now destruct (cap c =? 0). }
+  destruct H as [(Ep & [Hp|Hp])|(Ep & Hp)]; unfold step; rewrite Et, Ep, Epk; unfold section; rewrite Hp.
+  - eexists. destruct (Hfin _ (Hsend (ch s) Ec)) as (th' & H1 & H2 & H3). eauto.
+  - eexists.
+    assert (closed (if cap (ch s) =? 0 then set_sends (ch s) (pred (sends (ch s))) else ch s) = true) as Hc'
+      by (destruct (cap (ch s) =? 0); cbn; auto).
+    destruct (Hfin _ (Hsend _ Hc')) as (th' & H1 & H2 & H3). eauto.
+  - eexists.
+    assert (e_th (trysend_sec (ch s) th rest v) = fin th rest RPanic) as He
+      by (unfold trysend_sec; now rewrite Ec).
+    destruct (Hfin _ He) as (th' & H1 & H2 & H3). eauto.
 Qed.
 
-Lemma f5_send_closed :
-  let s := final w_send_closed_no_panic in
-  exists th, nth_error (ths s) 0 = Some th /\ prog th = [] /\ out th = [RClose; RSend false].
-Proof. vm_compute. eexists; repeat split. Qed.
-
-Lemma f5_close_closed :
-  let s := final w_close_closed_no_panic in
-  exists th, nth_error (ths s) 0 = Some th /\ prog th = [] /\ out th = [RClose; RClose].
-Proof. vm_compute. eexists; repeat split. Qed.
+Lemma close_closed_panics s t th rest :
+  nth_error (ths s) t = Some th -> parked th = false -> closed (ch s) = true ->
+  prog th = OClose :: rest -> tpc th = PStart ->
+  finishes_with s t rest RPanic.
+Proof.
+  intros Et Epk Ec Ep Hp. unfold finishes_with. rewrite Et.
+  unfold step; rewrite Et, Ep, Epk; unfold section; rewrite Hp, Ec.
+  eexists; eexists; split; [reflexivity|]; split; [eapply frame_self; eauto|]; cbn; auto.
+Qed.
 
 Lemma tryrecv_blocks :
   let s := final w_tryrecv_blocks in
